@@ -295,3 +295,42 @@ def data_witness(model, data, container, cap=40):
     if container == 'FCSData' and rows is not None:
         w['meta'] = meta_witness(model, data, shape[1])
     return w
+
+
+def cell3(I, seq, c):
+    """(isnone, lo, hi) terms of entry c of a per-channel range list, without forking (overlays -> ite chain)"""
+    base = seq.fn(I, c) if isinstance(seq, SymSeq) else None
+    if isinstance(seq, Seq):
+        items = [cell_of(I, x) for x in seq.items]
+        n_, lo_, hi_ = items[-1]
+        for k in range(len(items) - 2, -1, -1):
+            n_, lo_, hi_ = z3.If(c == k, items[k][0], n_), z3.If(c == k, items[k][1], lo_), z3.If(c == k, items[k][2], hi_)
+        return n_, lo_, hi_
+    n_, lo_, hi_ = cell_of(I, base)
+    for (oi, ov) in seq.overlays:
+        on, ol, oh = cell_of(I, ov)
+        hit = I.z(oi, 'int') == c
+        n_, lo_, hi_ = z3.If(hit, on, n_), z3.If(hit, ol, lo_), z3.If(hit, oh, hi_)
+    return n_, lo_, hi_
+
+
+def cell_of(I, v):
+    if isinstance(v, OptVal):
+        n_, lo_, hi_ = cell_of(I, v.val)
+        return z3.Or(v.isnone, n_), lo_, hi_
+    if v is None:
+        return z3.BoolVal(True), z3.RealVal(0), z3.RealVal(0)
+    if isinstance(v, Seq) and len(v.items) == 2:
+        return z3.BoolVal(False), I.z(v.items[0], 'real'), I.z(v.items[1], 'real')
+    raise Unsupported('range cell of unexpected shape: %r' % (v,))
+
+
+def fresh_range(I, name, D):
+    """a per-channel range list with fresh uninterpreted content"""
+    c = I.ctx
+    none = c.fresh_fn(name + '_none', z3.IntSort(), z3.BoolSort())
+    lo = c.fresh_fn(name + '_lo', z3.IntSort(), z3.RealSort())
+    hi = c.fresh_fn(name + '_hi', z3.IntSort(), z3.RealSort())
+    s = stamp(SymSeq('list', D, lambda I_, i: OptVal(none(i), stamp(Seq('list', [SV(lo(i), 'real'), SV(hi(i), 'real')])))))
+    s.elem_token = ('range-cells', name)
+    return s
